@@ -284,7 +284,7 @@ func (g *Gen) Device(t []*GVsys, nedits int) ([]*GVsys, []string) {
 				}
 			}
 		}
-		switch g.Rng.Intn(15) {
+		switch g.Rng.Intn(16) {
 		case 0: // rule missing on device
 			if len(v.Rules) > 0 {
 				i := g.Rng.Intn(len(v.Rules))
@@ -413,6 +413,21 @@ func (g *Gen) Device(t []*GVsys, nedits int) ([]*GVsys, []string) {
 				break
 			}
 			ops = append(ops, "objects-leftover")
+		case 15: // device holds X with other content and another group named X-1
+			if len(v.Groups) > 1 {
+				i := g.Rng.Intn(len(v.Groups))
+				j := g.Rng.Intn(len(v.Groups) - 1)
+				if j >= i {
+					j++
+				}
+				nn := v.Groups[i][0] + "-1"
+				if !hasGroup(v, nn) {
+					renameGroup(v.Groups[j][0], nn)
+					v.Groups[j][0] = nn
+					v.Groups[i] = append([]string{v.Groups[i][0]}, g.members(v, 1+g.Rng.Intn(5))...)
+					ops = append(ops, "group-suffix-clash")
+				}
+			}
 		case 14: // device address object carries an unknown attribute
 			if len(v.Addr) > 0 {
 				v.AddrX[v.Addr[g.Rng.Intn(len(v.Addr))][0]] = "<description>set by admin</description>"
